@@ -7,10 +7,10 @@ set_option linter.unusedSimpArgs false
 set_option linter.unusedVariables false
 namespace RV.C08
 
-theorem strictWeak_rowKey (e : Expr) :
-    StrictWeak (fun x y : Row => keyLt (evalE e x) (evalE e y)) (fun r => okKey (evalE e r) = true) :=
-  ⟨fun a b ha hb h => strictWeak_keyLt.asymm _ _ ha hb h,
-   fun a b c ha hb hc h1 h2 => strictWeak_keyLt.ntrans _ _ _ ha hb hc h1 h2⟩
+theorem strictWeak_rowKey (wd : Bool) (e : Expr) :
+    StrictWeak (fun x y : Row => keyLt (evalE e x) (evalE e y)) (fun r => okKey wd (evalE e r) = true) :=
+  ⟨fun a b ha hb h => (strictWeak_keyLt wd).asymm _ _ ha hb h,
+   fun a b c ha hb hc h1 h2 => (strictWeak_keyLt wd).ntrans _ _ _ ha hb hc h1 h2⟩
 
 theorem perm_evalOrderBy (keys : List (Expr × Bool)) (rows : List Row) :
     (evalOrderBy keys rows).Perm rows := by
@@ -21,16 +21,16 @@ theorem perm_evalOrderBy (keys : List (Expr × Bool)) (rows : List Row) :
     exact (perm_pySorted _ _ _).trans ih
 
 /-- stable_sort_chain -/
-theorem sorted_evalOrderBy (keys : List (Expr × Bool)) (rows : List Row)
-    (h : ∀ k ∈ keys, ∀ r ∈ rows, okKey (evalE k.1 r) = true) :
+theorem sorted_evalOrderBy (wd : Bool) (keys : List (Expr × Bool)) (rows : List Row)
+    (h : ∀ k ∈ keys, ∀ r ∈ rows, okKey wd (evalE k.1 r) = true) :
     (evalOrderBy keys rows).Pairwise (fun a b => lexLt keys b a = false) := by
   induction keys with
   | nil => exact List.Pairwise.imp (fun _ => rfl) (List.pairwise_of_forall (R := fun _ _ => True) (fun _ _ => trivial))
   | cons k ks ih =>
     have ih' := ih (fun k' hk' => h k' (List.mem_cons_of_mem _ hk'))
-    have hS : ∀ r ∈ evalOrderBy ks rows, okKey (evalE k.1 r) = true :=
+    have hS : ∀ r ∈ evalOrderBy ks rows, okKey wd (evalE k.1 r) = true :=
       fun r hr => h k List.mem_cons_self r ((perm_evalOrderBy ks rows).mem_iff.1 hr)
-    have key := pairwise_pySorted (strictWeak_rowKey k.1) k.2 (evalOrderBy ks rows) hS ih'
+    have key := pairwise_pySorted (strictWeak_rowKey wd k.1) k.2 (evalOrderBy ks rows) hS ih'
     show (sortByKey k (evalOrderBy ks rows)).Pairwise _
     unfold sortByKey
     refine key.imp ?_
@@ -74,6 +74,12 @@ theorem keyLt_of_sparqlLt {a b : Val} (h : sparqlLt a b = true) : keyLt a b = tr
         have h1 := strLt_asymm _ _ h
         have h2 : l1 ≠ l2 := by intro e; subst e; rw [strLt_irrefl] at h; cases h
         simp [litLt, litGt, litEqv, Term.dt, h1, h2]
+      · -- dateTime, dateTime
+        rename_i f1 f2
+        simp only [Bool.and_eq_true, beq_iff_eq, decide_eq_true_eq] at h
+        have h1 : ¬ f2.key < f1.key := by omega
+        have h2 : f1.key ≠ f2.key := by omega
+        simp [litLt, litGt, litEqv, Term.dt, h.1, h1, h2]
 
 theorem sparqlSame_symm {a b : Val} (h : sparqlSame a b = true) : sparqlSame b a = true := by
   cases a with
@@ -83,6 +89,11 @@ theorem sparqlSame_symm {a b : Val} (h : sparqlSame a b = true) : sparqlSame b a
     | none => cases x <;> simp_all [sparqlSame]
     | some y =>
       cases x <;> cases y <;> simp only [sparqlSame, beq_iff_eq] at h ⊢ <;> first | exact h.symm | skip
+      rename_i f1 f2
+      simp only [Bool.or_eq_true, beq_iff_eq, Bool.and_eq_true] at h ⊢
+      rcases h with h | ⟨⟨h1, h2⟩, h3⟩
+      · exact Or.inl h.symm
+      · exact Or.inr ⟨⟨h2, h1⟩, h3.symm⟩
 
 theorem keyLt_false_of_sparqlSame {a b : Val} (h : sparqlSame a b = true) : keyLt a b = false := by
   rw [keyLt_eq]
@@ -95,6 +106,11 @@ theorem keyLt_false_of_sparqlSame {a b : Val} (h : sparqlSame a b = true) : keyL
       cases x <;> cases y <;> simp only [sparqlSame, beq_iff_eq, Option.some.injEq, reduceCtorEq] at h <;>
         simp only [valRank, ne_eq, not_true_eq_false, if_false, keyInner]
       all_goals first
+        | (rename_i f1 f2
+           simp only [Bool.or_eq_true, beq_iff_eq, Bool.and_eq_true] at h
+           rcases h with h | ⟨⟨h1, h2⟩, h3⟩
+           · rw [h]; exact termLt_irrefl _
+           · simp [termLt, litLt, litEqv, h1, h2, h3])
         | (rename_i d1 v1 s1 d2 v2 s2; subst h; simp [termLt, litLt, litEqv])
         | (rw [h]; exact termLt_irrefl _)
         | (injection h with h1 h2; subst h1; try subst h2; exact termLt_irrefl _)
